@@ -396,6 +396,27 @@ impl Future for Pending {
     }
 }
 
+/// Runs a future and reports whether it ever returned `Pending` (a real suspension point)
+pub struct Susp<F> {
+    fut: Pin<Box<F>>,
+    suspended: bool,
+}
+pub fn susp<F: Future>(f: F) -> Susp<F> {
+    Susp { fut: Box::pin(f), suspended: false }
+}
+impl<F: Future> Future for Susp<F> {
+    type Output = (F::Output, bool);
+    fn poll(mut self: Pin<&mut Self>, cx: &mut Context<'_>) -> Poll<Self::Output> {
+        match self.fut.as_mut().poll(cx) {
+            Poll::Ready(v) => Poll::Ready((v, self.suspended)),
+            Poll::Pending => {
+                self.suspended = true;
+                Poll::Pending
+            }
+        }
+    }
+}
+
 pub const SELF_SENDER_BASE: u16 = 1000;
 /// bound on sends performed by one actor's scripts (keeps self-feeding actors finite)
 pub const MAX_SCRIPT_SENDS: u32 = 8;
@@ -415,8 +436,10 @@ async fn run_script(
                 log(Ev::Resumed { a: me, cb });
             }
             Act::Sleep(ms) => {
-                tokio::time::sleep(Duration::from_millis(*ms as u64)).await;
-                log(Ev::Resumed { a: me, cb });
+                let (_, suspended) = susp(tokio::time::sleep(Duration::from_millis(*ms as u64))).await;
+                if suspended {
+                    log(Ev::Resumed { a: me, cb });
+                }
             }
             Act::Hang => {
                 Pending.await;
@@ -445,8 +468,10 @@ async fn run_script(
                 }
             }
             Act::Spawn(idx) => {
-                let res = do_spawn(w, *idx as usize, Some(myself.get_cell())).await;
-                log(Ev::Resumed { a: me, cb });
+                let (res, suspended) = susp(do_spawn(w, *idx as usize, Some(myself.get_cell()))).await;
+                if suspended {
+                    log(Ev::Resumed { a: me, cb });
+                }
                 log(Ev::ActDone { a: me, what: format!("spawn {idx}"), res });
             }
             Act::Join(g) => {
@@ -629,8 +654,10 @@ impl Actor for ScriptActor {
                         log(Ev::Reply { a: me, id, v, ok });
                     }
                     ReplyPolicy::AfterMs(ms) => {
-                        tokio::time::sleep(Duration::from_millis(ms as u64)).await;
-                        log(Ev::Resumed { a: me, cb: Cb::Handle });
+                        let (_, suspended) = susp(tokio::time::sleep(Duration::from_millis(ms as u64))).await;
+                        if suspended {
+                            log(Ev::Resumed { a: me, cb: Cb::Handle });
+                        }
                         let ok = reply.send(v).is_ok();
                         log(Ev::Reply { a: me, id, v, ok });
                     }
@@ -680,6 +707,7 @@ impl Actor for ScriptActor {
         }
         if result.is_ok() && is_exit && w.specs[me].sup_stops {
             myself.stop(None);
+            log(Ev::ActDone { a: me, what: "stop_self".into(), res: Res::Unit });
         }
         guard.done = true;
         log(Ev::Exit { a: me, cb: Cb::Sup, ok: result.is_ok() });
@@ -839,7 +867,7 @@ fn call_res(r: Result<CallResult<u64>, MessagingErr<Msg>>) -> Res {
     }
 }
 
-pub async fn exec_op(w: &Arc<World>, c: usize, op: &Op) -> Res {
+pub async fn exec_op(w: &Arc<World>, c: usize, i: usize, op: &Op) -> Res {
     macro_rules! cell {
         ($a:expr) => {
             match w.cell(*$a as usize) {
@@ -1002,8 +1030,8 @@ pub async fn exec_op(w: &Arc<World>, c: usize, op: &Op) -> Res {
             let ch = cell!(child);
             let evt = match kind {
                 SupKind::Started => SupervisionEvent::ActorStarted(ch.get_cell()),
-                SupKind::Terminated => SupervisionEvent::ActorTerminated(ch.get_cell(), None, Some("synthetic".into())),
-                SupKind::Failed => SupervisionEvent::ActorFailed(ch.get_cell(), "synthetic".into()),
+                SupKind::Terminated => SupervisionEvent::ActorTerminated(ch.get_cell(), None, Some(format!("syn-{c}-{i}"))),
+                SupKind::Failed => SupervisionEvent::ActorFailed(ch.get_cell(), format!("syn-{c}-{i}").into()),
             };
             ch.get_cell().notify_supervisor(evt);
             Res::Unit
@@ -1042,7 +1070,7 @@ pub async fn exec_op(w: &Arc<World>, c: usize, op: &Op) -> Res {
 pub async fn run_client(w: Arc<World>, c: usize, ops: Vec<Op>) {
     for (i, op) in ops.iter().enumerate() {
         log(Ev::OpStart { c, i });
-        let res = exec_op(&w, c, op).await;
+        let res = exec_op(&w, c, i, op).await;
         log(Ev::OpEnd { c, i, res });
         yield_once().await;
     }
